@@ -234,7 +234,7 @@ func (c *Ctx) requestSites() ([]*reqSite, []string) {
 				continue
 			}
 			pt, pcall := c.packedType(w.Call.Args[1])
-			s := &reqSite{F: f, Write: w, QoS: -1, Cli: c.Resolve(w.Call.Args[0])}
+			s := &reqSite{F: f, Write: w, QoS: -1, Cli: c.clientOperand(w.Call.Args[0])}
 			// context parameter of f
 			for _, p := range f.Params {
 				if types.TypeString(p.Type(), nil) == "context.Context" {
@@ -406,4 +406,18 @@ func constantInt64(v interface{ String() string }) (int64, bool) {
 	var n int64
 	_, err := fmt.Sscan(v.String(), &n)
 	return n, err == nil
+}
+
+// clientOperand: the *BaseClient a method call is made on; a value-receiver call passes *p, which is normalised to p.
+func (c *Ctx) clientOperand(v ssa.Value) ssa.Value {
+	if u, ok := v.(*ssa.UnOp); ok && u.Op == token.MUL {
+		if n, isNamed := u.Type().(*types.Named); isNamed && n.Obj().Name() == "BaseClient" {
+			if _, isPtr := u.X.Type().Underlying().(*types.Pointer); isPtr {
+				if _, isField := u.X.(*ssa.FieldAddr); !isField {
+					return c.Resolve(u.X)
+				}
+			}
+		}
+	}
+	return c.Resolve(v)
 }
